@@ -55,6 +55,9 @@ TEMPLATES = [
     ("idx_append", "x := {a}; x[{b}] append= {c}; x", 3),
     ("slice_assign", "x := {a}; x[{b}:{c}] = [9]; x", 3), ("every_slice", "x := {a}; every x[{b}:{c}] = 9; x", 3),
     ("every_all", "x := {a}; every x[:] = {b}; x", 2),
+    ("str_elem_assign", "x := \"hello\"; x[1] = {a}; x", 1), ("bytes_elem_assign", "x := B[1, 2, 3]; x[1] = {a}; x", 1),
+    ("vec_elem_assign", "x := V(1, 2, 3); x[1] = {a}; x", 1), ("str_elem_assign_at", "x := \"héllo\"; x[{a}] = \"Z\"; x", 1),
+    ("str_elem_opassign", "x := \"hello\"; x[1] $= {a}; x", 1),
     ("pop", "x := {a}; pop x", 1), ("pop_idx", "x := {a}; pop x[{b}]", 2), ("remove", "x := {a}; remove x[{b}]", 2),
     ("remove_slice", "x := {a}; remove x[{b}:{c}]", 3), ("consume", "x := {a}; consume x", 1),
     ("consume_idx", "x := {a}; consume x[{b}]", 2),
